@@ -150,6 +150,7 @@ type Exec struct {
 	Conc     *Conc
 	Vids     map[string]string // symbolic -> server version id
 	Uids     map[string]string // symbolic -> server upload id
+	VerMeta  map[string]string // server version id -> metadata and entity headers it was served with right after its upload
 	Host     string            // Host header to use ("" = default)
 	Addr     func(r *Req)      // addressing-mode rewrite applied to every request (C16)
 	RawPath  bool              // also set URL.RawPath, as net/http does for a request line whose escaping is not Go's canonical one
